@@ -42,6 +42,26 @@ func c04Thresh(nb, exp, num, den int64) int64 {
 	return exp - l.Int64()
 }
 
+// c04AriAt places one instant of the renewal information (window start, selected time). The
+// renewal information is tied to the validity period only by convention: a CA that wants a
+// certificate replaced at once (mass revocation, a mis-issuance found an hour after issuing)
+// publishes a window that lies wholly in the past, possibly before the certificate's NotBefore;
+// a window may also straddle NotBefore, or reach beyond NotAfter. So the instant is drawn from
+// before, at (+-1 ns, +-1 s), inside and after the validity period, not only from inside it.
+func c04AriAt(rng *mrand.Rand, nb, L int64) int64 {
+	switch rng.Intn(10) {
+	case 0: // shortly before the start of validity (hours .. days)
+		return nb - 1 - rng.Int63n(3*86400*1e9)
+	case 1: // before the start of validity by up to a lifetime
+		return nb - 1 - rng.Int63n(L+1)
+	case 2: // at the start of validity
+		return nb + []int64{-1e9, -1, 0, 1, 1e9}[rng.Intn(5)]
+	case 3: // at or after the end of validity
+		return nb + L + rng.Int63n(L/10+2e9) - 1e9
+	}
+	return nb + rng.Int63n(L+1)
+}
+
 func c04Gen(rng *mrand.Rand) c04Case {
 	const base = int64(2_000_000_000) * 1e9
 	lifes := []int64{120, 3600, 6 * 3600, 86400, 7 * 86400, 47 * 86400, 90 * 86400, 398 * 86400, 3650 * 86400}
@@ -75,10 +95,10 @@ func c04Gen(rng *mrand.Rand) c04Case {
 	switch rng.Intn(9) {
 	case 8: // a selected time that is NOT inside the window (the CA has moved the window since the
 		// time was selected, or an administrator scheduled the renewal): the selected time counts
-		s := c.nb + rng.Int63n(L+1)
+		s := c04AriAt(rng, c.nb, L)
 		w := (2 + rng.Int63n(3*86400)) * 1e9
 		c.hasWs, c.hasWe, c.ws, c.we = true, true, s, s+w
-		c.hasSel, c.sel = true, c.nb+rng.Int63n(L+1)
+		c.hasSel, c.sel = true, c04AriAt(rng, c.nb, L)
 	case 0:
 		c.disable = true
 		// (ARI disabled: whatever renewal information the certificate still carries — a window, a
@@ -87,27 +107,27 @@ func c04Gen(rng *mrand.Rand) c04Case {
 		case 0:
 			c.hasWs, c.hasWe, c.ws, c.we = true, true, c.nb+L/2, c.nb+L/2+3600e9
 		case 1:
-			s := c.nb + rng.Int63n(L+1)
+			s := c04AriAt(rng, c.nb, L)
 			w := (2 + rng.Int63n(3*86400)) * 1e9
 			c.hasWs, c.hasWe, c.ws, c.we = true, true, s, s+w
 			c.hasSel, c.sel = true, s+rng.Int63n(w)
 		case 2:
-			c.hasSel, c.sel = true, c.nb+rng.Int63n(L+1)
+			c.hasSel, c.sel = true, c04AriAt(rng, c.nb, L)
 		}
 	case 1: // none
 	case 2, 3: // window, no selected time
-		s := c.nb + rng.Int63n(L+1)
+		s := c04AriAt(rng, c.nb, L)
 		w := (2 + rng.Int63n(3*86400)) * 1e9
 		c.hasWs, c.hasWe, c.ws, c.we = true, true, s, s+w
 	case 4, 5: // window and selected
-		s := c.nb + rng.Int63n(L+1)
+		s := c04AriAt(rng, c.nb, L)
 		w := (2 + rng.Int63n(3*86400)) * 1e9
 		c.hasWs, c.hasWe, c.ws, c.we = true, true, s, s+w
 		c.hasSel, c.sel = true, s+rng.Int63n(w)
 	case 6: // selected only (administrator-scheduled)
-		c.hasSel, c.sel = true, c.nb+rng.Int63n(L+1)
+		c.hasSel, c.sel = true, c04AriAt(rng, c.nb, L)
 	case 7: // degenerate / half-set window
-		s := c.nb + rng.Int63n(L+1)
+		s := c04AriAt(rng, c.nb, L)
 		switch rng.Intn(3) {
 		case 0:
 			c.hasWs, c.hasWe, c.ws, c.we = true, true, s, s+rng.Int63n(2e9)
